@@ -94,10 +94,12 @@ def run_chain(args):
         # the user starts over with resume=False
         ops = [['run', rng.choice([1, 3, 10, 40, 400])], ['restart_fresh']] \
             + ops
-    elif r < 0.24:
+    elif r < 0.28:
         # ... and the new computation is stopped early (before its first
         # bound insertion) and resumed from the file
-        ops = [['run', rng.choice([2, 10, 40, 400, 400])],
+        # (the leftover must have moved past its first bound insertion,
+        # otherwise - same seed - it coincides with the new computation)
+        ops = [['run', rng.choice([40, 400, 400])],
                ['restart_fresh'], ['run', rng.choice([1, 1, 2, 3])],
                rng.choice([['stop_resume'], ['kill', 0, 0, None]]),
                ['finish']]
